@@ -13,9 +13,9 @@ def table_groups(tier, props=("C19", "C01", "C02", "C10")):
     from checks.shapes import mat, even
     gs = []
     q = tier == "quick"
-    for k in range(1, 9):
+    for k in (range(1, 6) if q else range(1, 9)):   # k = 6..8: measured out of memory (table of 64..256 symbolic rows read at a symbolic row index): thorough-tier attempts
         shapes = [(70, 0, "owned"), (130, 70, "view1")] if q else [(1, 0, "owned"), (64, 0, "owned"), (70, 5, "view0"), (130, 70, "view1"), (200, 64, "owned"), (700, 130, "view1")]
-        if q and k in (3, 8):
+        if q and k in (3, 5):
             shapes.append((700, 3, "owned"))
         for nc, ccol, kind in shapes:
             d = mat(k + 1, nc, kind)
@@ -24,7 +24,7 @@ def table_groups(tier, props=("C19", "C01", "C02", "C10")):
             tag = "k%d.%dx%d.c%d.%s" % (k, k + 1, nc, ccol, kind)
             gs.append(Group(gid="K.mzd_make_table." + tag, props=list(props), harness="k_table.c", function="mzd_make_table", layer="K", defines=d,
                             tus=["mzd", "mmc", "misc", "graycode", "brilliantrussian", "strassen", "mzp", "ple", "ple_russian", "triangular", "triangular_russian", "echelonform", "io", "djb", "debug_dump", "mp", "solve", "@libm"],
-                            assert_mode=True, unwind=(1 << k) + 3, bounded=True, bound_note="k=%d complete in patterns; row width %d columns, start column %d" % (k, nc, ccol), shape=tag,
+                            assert_mode=True, unwind=max((1 << k) + 3, 20), bounded=True, bound_note="k=%d complete in patterns; row width %d columns, start column %d" % (k, nc, ccol), shape=tag,
                             timeout=900, solver="--sat-solver cadical", cbmc_flags=["--arrays-uf-always"] if k >= 6 else []))
     return gs
 
@@ -46,12 +46,14 @@ def groups(tier, seed):
     w("spread_abort", "m4ri_spread_bits/m4ri_shrink_bits (length outside 1..16)")
     w("gray", "m4ri_gray_code", unwind=18, note="(loop bounded by l<=16, complete)", tus=["graycode"])
     w("graycf", "m4ri_gray_code (closed form helper contract)", "m4ri_gray_code", unwind=18, note="(loop bounded by l<=16, complete)", tus=["graycode"])
-    for k in range(1, 17):
+    for k in (range(1, 17) if tier == "thorough" else range(1, 15)):
         gs.append(Group(gid="C19.codelc.k%d" % k, props=P, harness="c19.c", function="m4ri_build_code", layer="P", defines={"H_CODELC": None, "K": k},
                         tus=["graycode"], enforce=["m4ri_build_code"], replace=["m4ri_gray_code"], loop_contracts=True, pre_unwindset={"m4ri_build_code.2": k + 1}, bounded=False, cbmc_flags=["--arrays-uf-always"],
                         bound_note="(loops 1 and 3 closed by loop invariants; outer loop of l<=16 iterations unwound completely)", timeout=900, shape="k=%d" % k, mem_gb=(40 if k >= 16 else 12), slots=(6 if k >= 15 else 1)))
     gs += table_groups(tier)
-    ks = range(1, 17) if tier == "thorough" else [1, 2, 3, 4, 5, 6, 7, 8, 9, 10, 11, 12]
+    # second, independent route without the closed form: concrete k, complete unwinding, every entry visited by symbolic execution
+    # (k <= 9 quick; k = 10, 11 thorough: 1-6 min; larger k only by the loop-invariant route above)
+    ks = range(1, 12) if tier == "thorough" else range(1, 10)
     for k in ks:
         gs.append(Group(gid="C19.code.k%d" % k, props=P, harness="c19.c", function="m4ri_build_code", layer="P", defines={"H_CODE": None, "K": k},
                         tus=["graycode"], unwind=(1 << k) + 2, bounded=False, bound_note="(concrete k=%d, complete unwinding: finite domain)" % k,
